@@ -324,11 +324,6 @@ def r4_identifiers(ctx):
             got.append([(c.name, getattr(c, "gargs", None)) if isinstance(c, Agg) else c for c in comps] if comps is not None else p.end)
         ctx.check(got == [[(PE, [want])]], "C06.R4", fn.key, label,
                   "%s() appends %s, expected exactly one PopulationEvaluator<%s>" % (name, got, want), loc=fn.loc())
-    ini = F.method(PE, "init", COMPONENT)
-    paths, seen = inserted_by(ini, [Sym("self"), Sym("problem"), Sym("state")], lambda k: k.startswith("mahf::state::common::") or k.startswith("<mahf::state::common::"))
-    vals = [(t, v.fields[0] if isinstance(v, Agg) and v.fields else v) for t, v in seen if t == EVALS]
-    good = len(paths) == 1 and paths[0].end == "return" and isinstance(paths[0].ret, Agg) and paths[0].ret.variant == "Ok" and vals == [(EVALS, 0)]
-    ctx.check(good, "C06.R4", ini.key, "counter-starts-at-zero", "init does not insert exactly one Evaluations(0) (it inserts %s)" % [(t, str(v)) for t, v in seen], loc=ini.loc())
 
 
 def r5_scopes_merge_counts(ctx):
@@ -379,6 +374,7 @@ def r5_scopes_merge_counts(ctx):
 def run(ctx):
     ctx.guard("C06.R6", "evaluation steps reach their evaluator through State::holding: T is put back into the scope it came from", lambda: __import__("c02").r4_holding(ctx, "C06.R6"))
     ctx.guard("C06.R5", "scopes", lambda: r5_scopes_merge_counts(ctx))
+    ctx.guard("C06.INIT", "the counter starts at zero, also on a used state", lambda: __import__("initspec").check_for(ctx, "C06"))
     ctx.guard("C06.R1", "PopulationEvaluator", lambda: r1_population_evaluator(ctx))
     ctx.guard("C06.R2", "evaluators", lambda: r2_evaluators(ctx))
     ctx.guard("C06.R3", "every evaluate is counted", lambda: r3_every_evaluate_is_counted(ctx))
